@@ -248,14 +248,16 @@ def ofF32Bits (b : Nat) : F64 :=
       ofParts neg (k + 874) ((fr * 2 ^ (52 - k)) % 2 ^ 52)
   else ofParts neg (e + 896) (fr * 2 ^ 29)
 
-/-- `big.Int.Float64()` exactness and result: the float64 equal to `i`, if one exists. -/
+/-- `big.Int.Float64()` when it reports `big.Exact`: the float64 whose value is exactly `i`,
+    if there is one — `|i| = m · 2^e` with `m < 2^53` and the exponent in range. -/
 def ofIntExact? (i : Int) : Option F64 :=
   if i == 0 then some 0 else
-  match ofRatPos i.natAbs 1 with
-  | none => none
-  | some (ef, fr) =>
-    let f := ofParts (i < 0) ef fr
-    if isInteger f && toInt f == i then some f else none
+  let n := i.natAbs
+  let k := Nat.log2 n                      -- 2^k ≤ n < 2^(k+1)
+  if k > 1023 then none
+  else if k ≤ 52 then some (ofParts (decide (i < 0)) (k + 1023) (n * 2 ^ (52 - k) - 2 ^ 52))
+  else if n % 2 ^ (k - 52) == 0 then some (ofParts (decide (i < 0)) (k + 1023) (n / 2 ^ (k - 52) - 2 ^ 52))
+  else none
 
 end F64
 end Ogorek
